@@ -165,4 +165,20 @@ theorem quoted_roundtrip (t rest : B) :
   congr 2
   simp; omega
 
+/-! ### the rewriting at the end of `Parse` keeps the meaning -/
+
+/-- **`stripCaseScopes` and `Simplify`** — constant folding (`evalConstants`) and flattening of nested And/Or
+    (`flatten`, to its fixpoint) — select the same documents as the tree they start from, on every corpus in which
+    an empty pattern matches every document (what the folding of empty atoms to TRUE presupposes), for every
+    document of the corpus. For every tree, including `Type` over constants, `Not` of constants, empty and
+    single-child `And`/`Or`. -/
+theorem parse_tail_preserves_meaning (c : Corpus) (he : EmptyOK c) (q r : Q)
+    (h : simplify (stripCaseScopes q) = .ok r) (d : Nat) (hd : d < c.n) :
+    evalQ c r d = evalQ c q d :=
+  evalQ_parse_tail c he q r h d hd
+
+/-- parse-time `caseScopeQ` wrappers never change which documents are selected -/
+theorem case_scope_wrapper_transparent (c : Corpus) (q : Q) : evalQ c (stripCaseScopes q) = evalQ c q :=
+  evalQ_strip c q
+
 end ZoektModel.C06
